@@ -13,7 +13,9 @@ What the child does
   at the backup, the anchor functions entered so far, and calls ``os._exit(17)``;
 * registers a store listener on the database *after* ``set_optimization_history_backup`` so that
   every store completed by the run is logged (point, names present at that point, new values);
-* when the run completes, dumps the final database, the optimum and the counters to ``final``.
+* when the run completes, dumps the final database, the optimum and the counters to ``final``;
+* ``runs`` (restarts only, never a crashing run): several independent restarts served by one interpreter, each
+  with its own scenario, backup copy, side log and final dump (saves the ~4 s gemseo import per extra restart mode).
 
 Nothing here decides anything: the oracle lives in the check module (parent side).
 """
@@ -225,18 +227,27 @@ def main(argv):
     root = os.path.dirname(os.path.dirname(here))
     if root not in sys.path:
         sys.path.append(root)
-    import numpy as np
-
-    log = SideLog(cfg["log"])
-    state = {"n_exec": 0, "reach": None}
+    reach_monitor = None
     anchors = cfg.get("anchors") or []
     if anchors:
         from vlib import reach
 
-        state["reach"] = reach.Reach(anchors)
-        state["reach"].start()
+        reach_monitor = reach.Reach(anchors)
+        reach_monitor.start()
+    # one interpreter can serve several independent restarts (each on its own copy of the backup, with its own
+    # scenario, disciplines, side log and final dump): "runs" overrides backup/log/final/keep_counter per run
+    for run in cfg.get("runs") or [{}]:
+        run_once(dict(cfg, **run), reach_monitor)
+    return 0
+
+
+def run_once(cfg, reach_monitor):
+    import numpy as np
+
+    log = SideLog(cfg["log"])
+    state = {"n_exec": 0, "reach": reach_monitor}
     log.write({"ev": "start", "pid": os.getpid(), "load": cfg["load"], "crash_at": cfg.get("crash_at", 0),
-               "backup_exists": os.path.exists(cfg["backup"])})
+               "backup_exists": os.path.exists(cfg["backup"]), "keep_counter": cfg.get("keep_counter", True)})
     sc, discs = build(cfg, log, state)
     problem = sc.formulation.optimization_problem
     db = problem.database
@@ -249,7 +260,7 @@ def main(argv):
             fh.write(json.dumps({"n_exec": 0, "error": f"backup-setup: {type(e).__name__}: {e}", "database": [],
                                  "result": None, "anchors": sorted(state["reach"].reached) if state["reach"] else []}))
         log.write({"ev": "done", "n_exec": 0, "error": "backup-setup"})
-        return 0
+        return
     log.write({"ev": "loaded", "n": len(db), "counter": problem.evaluation_counter.current})
 
     def on_store(x_vect):
@@ -261,7 +272,7 @@ def main(argv):
     db.add_store_listener(on_store)
     settings = dict(cfg["algo_settings"])
     if cfg["load"] and cfg.get("keep_counter", True):
-        settings["reset_iteration_counters"] = False
+        settings["reset_iteration_counters"] = False  # else: the driver's default (reset)
     err = None
     try:
         sc.execute(algo_name=cfg["algo"], **settings)
@@ -276,6 +287,7 @@ def main(argv):
         "anchors": sorted(state["reach"].reached) if state["reach"] else [],
         "anchors_unresolved": sorted(state["reach"].unresolved) if state["reach"] else [],
         "counter_end": problem.evaluation_counter.current,
+        "counter_max": problem.evaluation_counter.maximum,
         "result": None if res is None else {
             "f_opt": None if res.f_opt is None else float(res.f_opt),
             "x_opt": None if res.x_opt is None else np.asarray(res.x_opt).tolist(),
@@ -290,7 +302,6 @@ def main(argv):
         fh.flush()
         os.fsync(fh.fileno())
     log.write({"ev": "done", "n_exec": state["n_exec"]})
-    return 0
 
 
 if __name__ == "__main__":
